@@ -31,17 +31,20 @@ def main(tier, only):
     to = 300 if tier == "quick" else 1800
     wd = common.workdir("C19")
     cfgs = []
-    extra = {"VERIF_C2SET": "0,1,3", "VERIF_INPSET": "0,1,2,4,5,6,7,9,10,11,14"} if tier == "quick" else {}
+    extra = {"VERIF_C2SET": "0,3,7", "VERIF_INPSET": "0,1,2,4,5,6,7,9,10,11,14"} if tier == "quick" else {}
     for cmd in range(3):
         for gsrc in range(4):
             for c1file in range(2):
+                ex = dict(extra)
+                if tier == "quick" and gsrc >= 2:
+                    ex["VERIF_INPSET"] = "0,5,11"      # malformed / missing grammar: the answer does not depend on the input
                 cfgs.append(dict(tag="cmd%d.g%d.f%d" % (cmd, gsrc, c1file),
-                                 env=dict(extra, VERIF_FIX="0=%d,1=%d,3=%d" % (cmd, gsrc, c1file), VERIF_WORK=wd), only=None, timeout=to))
+                                 env=dict(ex, VERIF_FIX="0=%d,1=%d,3=%d" % (cmd, gsrc, c1file), VERIF_WORK=wd), only=None, timeout=to))
     if tier == "quick":
-        run.extra["quick_tier_restriction"] = "second constraint slot restricted to {none, valid, syntax error}; 11 of the 15 inputs"
-    run.bounds = dict(scenarios="3 commands (check, parse, find) x 4 grammar sources (file, --grammar, malformed file, missing) x 7x2 x 7x2 constraint slots "
-                                "(none / 3 valid / syntax error / unknown nonterminal / unknown predicate; -c or .isla file) x 15 inputs (members, non-members, empty file, "
-                                "newline only, trailing newline, JSON tree) x (file | --input-string): 51744 command lines")
+        run.extra["quick_tier_restriction"] = "second constraint slot restricted to {none, syntax error, extension semantic predicate}; 11 of the 15 inputs (3 when the grammar is malformed or missing)"
+    run.bounds = dict(scenarios="3 commands (check, parse, find) x 4 grammar sources (file, --grammar, malformed file, missing) x 9x2 x 9x2 constraint slots "
+                                "(none / 3 valid / syntax error / unknown nonterminal / unknown predicate / semantic and structural predicate from a Python extension file; -c or .isla file) x 15 inputs (members, non-members, empty file, "
+                                "newline only, trailing newline, JSON tree) x (file | --input-string)")
     run.engines = dict(crosshair="crosshair-tool 0.0.110 on z3 4.11.2")
     run.trusted = ["expected exit code computed from the documented contract with checks/refsem.py and the Earley parser for membership"]
     run.assumptions = ["[decoder]: the solver enumerates the scenario vectors; isla.cli.main runs natively in-process with captured stdout/stderr",
